@@ -19,7 +19,7 @@ func init() {
 		ID:          "C19",
 		Explanation: "Decided: (magic) the hint byte 0x08 can enter the output stream only through Hint.WriteTo — the string-literal encoder escapes it, no template, prelude file or identifier encoder can contain it; (codec) WriteTo and ReadHint agree on the 3-byte header (magic, big-endian 16-bit size) and on the consumed length, Pack and Unpack agree on the (flag, type) table and Filter.Write handles every packed type; (pos) translateStmt sets the position before any emission, every write flushes a pending position hint first, and CatchOutput flushes before returning its buffer; (filter) Filter.Write counts lines and columns on exactly the bytes it forwards and skips exactly the length ReadHint reports, prelude/inc.js mappings are offset by the current line and column; the minifier copies hints verbatim by the same length. NOT decided: column arithmetic of esbuild's maps, mapping completeness, behaviour when a Write call splits a hint (documented precondition).",
 		Assumptions: []string{"callers never split a hint across Write calls (documented precondition of the filter)", "net/url.QueryEscape percent-encodes control bytes"},
-		Rules:       []RuleFunc{ruleC19Magic, ruleC19Codec, ruleC19Pos, ruleC19Filter, ruleC19WriteJSSource, ruleC19FirstLine},
+		Rules:       []RuleFunc{ruleC19Magic, ruleC19Codec, ruleC19Pos, ruleC19Filter, ruleC19WriteJSSource, ruleC19FirstLine, ruleNarrowShift},
 	})
 }
 
@@ -194,6 +194,18 @@ func ruleC19Codec(c *ctx.Ctx, r *core.Reporter) {
 						little = true
 					}
 				}
+				// hand-coded big-endian length: append(buf, …, byte(S>>8), byte(S)) with S the payload length
+				if exprStr(x.Fun) == "append" && !x.Ellipsis.IsValid() && pLen == token.NoPos {
+					for i := 1; i+1 < len(x.Args); i++ {
+						hi, lo := squash(exprStr(x.Args[i])), squash(exprStr(x.Args[i+1]))
+						if strings.HasPrefix(hi, "byte(") && strings.HasSuffix(hi, ">>8)") && strings.HasPrefix(lo, "byte(") {
+							sv := strings.TrimSuffix(strings.TrimPrefix(hi, "byte("), ">>8)")
+							if lo == "byte("+sv+")" && (sv == "len("+recv+".Payload)" || len(findGoPattern(wt.Body, sv+` := len(`+recv+`.Payload)`)) > 0) {
+								pLen = x.Args[i].Pos()
+							}
+						}
+					}
+				}
 				if exprStr(x.Fun) == "append" && x.Ellipsis.IsValid() && len(x.Args) == 2 && exprStr(x.Args[1]) == recv+".Payload" && pPayload == token.NoPos {
 					pPayload = x.Pos()
 				}
@@ -204,7 +216,9 @@ func ruleC19Codec(c *ctx.Ctx, r *core.Reporter) {
 	}
 	r.Check(func() bool {
 		in := firstParamName(rh)
-		for _, m := range findGoPattern(rh.Body, `µsize := int(binary.BigEndian.Uint16(µb[1:3]))`) {
+		sizeDefs := findGoPattern(rh.Body, `µsize := int(binary.BigEndian.Uint16(µb[1:3]))`)
+		sizeDefs = append(sizeDefs, findGoPattern(rh.Body, `µsize := int(µb[1])<<8 | int(µb[2])`)...)
+		for _, m := range sizeDefs {
 			if m.Env["µb"] != in {
 				continue
 			}
@@ -219,7 +233,7 @@ func ruleC19Codec(c *ctx.Ctx, r *core.Reporter) {
 			return okCopy && okRet
 		}
 		return false
-	}(), "header:reader", c.Pos(rh.Pos()), "ReadHint reads the size from bytes 1..2 big-endian, the payload from byte 3 and reports size+3 consumed bytes")
+	}(), "header:reader", c.Pos(rh.Pos()), "ReadHint reads the size from bytes 1..2 big-endian (binary.BigEndian.Uint16, or int(b[1])<<8 | int(b[2]) with the bytes widened BEFORE the shift), the payload from byte 3 and reports size+3 consumed bytes")
 	r.Check(strings.Contains(w, "iflen(h.Payload)>0xFFFF{panic("), "header:size-fits", c.Pos(wt.Pos()), "a payload that does not fit the 16-bit size field is rejected instead of being truncated")
 	r.Check(hasGoPattern(rh.Body, `if µb[0] != HintMagic { panic(µ_) }`) && hasGoPattern(rh.Body, `if len(µb) < µsize+3 { panic(µ_) }`), "header:reader-checks", c.Pos(rh.Pos()), "ReadHint refuses input that does not start with the magic or is shorter than the announced payload")
 	// flags
